@@ -12,4 +12,4 @@ require (
 	golang.org/x/sys v0.45.0 // indirect
 )
 
-replace github.com/gopacket/gopacket => /tmp/seedwt-4143
+replace github.com/gopacket/gopacket => /tmp/seedwt-16518
